@@ -1013,6 +1013,16 @@ func TestReplay(t *testing.T) {
 	if _, err := vkit.LoadReplay(path, &c); err != nil {
 		t.Fatal(err)
 	}
+	if strings.HasPrefix(c.Mode, "contend") {
+		// a race inside the backend replays statistically: same round parameters, many rounds
+		var cc ContendCase
+		if _, err := vkit.LoadReplay(path, &cc); err != nil {
+			t.Fatal(err)
+		}
+		cc.Rounds = 60000
+		reportContend(t, cc, runContend(cc))
+		return
+	}
 	for i := 0; i < 3; i++ {
 		p := &vkit.Picks{List: c.Picks}
 		report(t, c, runCase(c, p.Choose))
